@@ -28,7 +28,11 @@ ASSUMPTIONS = (
 )
 
 WRITE_MODES = ("w", "a", "x", "+")
-REPLACERS = {"os.replace", "os.rename", "shutil.move"}
+# shutil.move is deliberately absent: across filesystems it falls back to a
+# copy that opens the destination for writing in place
+REPLACERS = {"os.replace", "os.rename"}
+TEMPFILE_CTORS = {"tempfile.NamedTemporaryFile", "NamedTemporaryFile", "tempfile.mkstemp",
+                  "mkstemp", "tempfile.TemporaryFile"}
 
 
 def _scope(ctx):
@@ -47,6 +51,8 @@ def _scope(ctx):
 
 def _is_write_open(call):
     d = dotted(call.func)
+    if d in TEMPFILE_CTORS:
+        return True
     if d in ("open", "io.open") or (isinstance(call.func, ast.Attribute)
                                     and call.func.attr == "open"):
         mode = None
@@ -69,6 +75,8 @@ def _is_write_open(call):
 
 def _opened_path(call):
     d = dotted(call.func)
+    if d in TEMPFILE_CTORS:
+        return call
     if d in ("open", "io.open"):
         return call.args[0] if call.args else None
     if isinstance(call.func, ast.Attribute):
@@ -93,11 +101,12 @@ def _classify_path(ctx, func, expr, _depth=0):
                 return "unknown", None
         d = dotted(fn)
         if d in ("tempfile.mkstemp", "tempfile.NamedTemporaryFile", "tempfile.mktemp",
-                 "mkstemp", "NamedTemporaryFile"):
+                 "mkstemp", "NamedTemporaryFile", "tempfile.TemporaryFile"):
             for k in expr.keywords:
-                if k.arg == "dir":
+                if k.arg == "dir" and ("parent" in ast.unparse(k.value)
+                                       or "dirname" in ast.unparse(k.value)):
                     return "temp", None
-            return "unknown", None
+            return "elsewhere", None
         if d in ("str", "os.fspath", "pathlib.Path", "Path"):
             if expr.args:
                 return _classify_path(ctx, func, expr.args[0], _depth + 1)
@@ -153,10 +162,41 @@ def rule_atomic(ctx):
                             "killed mid-write leaves a partial entry under the name readers look up",
                             opened=C.unparse(pexpr))
                 continue
+            if kind == "elsewhere":
+                r.violation(key, where, "the temporary file is created in the system temp "
+                            "directory, not next to the entry: on another filesystem the final "
+                            "move is a copy that writes the entry in place, so a writer killed "
+                            "during it leaves a partial entry", opened=C.unparse(pexpr, 80))
+                continue
             if kind == "unknown":
                 r.violation(key, where, "cannot show that the path opened for writing is a "
                             "temporary sibling of the entry path", opened=C.unparse(pexpr))
                 continue
+            # the temp must be (re)creatable after a crash left one behind
+            mode = None
+            if dotted(call.func) in ("open", "io.open") and len(call.args) >= 2 and \
+                    isinstance(call.args[1], ast.Constant):
+                mode = call.args[1].value
+            for k in call.keywords:
+                if k.arg == "mode" and isinstance(k.value, ast.Constant):
+                    mode = k.value.value
+            if mode:
+                src_txt = ""
+                if isinstance(pexpr, ast.Name):
+                    src_txt = " ".join(ast.unparse(v) for v in
+                                       ctx.r.local_assignments(f).get(pexpr.id, []))
+                unique = any(t in src_txt for t in ("getpid", "uuid", "get_ident", "mkstemp",
+                                                    "token_hex", "NamedTemporaryFile"))
+                if "a" in mode:
+                    r.violation(key, where, "the temporary is opened in append mode: bytes left "
+                                "by a writer that died are kept in front of the new entry")
+                    continue
+                if "x" in mode and not unique:
+                    r.violation(key, where, "the temporary has a fixed name and is created "
+                                "exclusively: the file a dead writer left behind makes every "
+                                "later store of that entry fail (FileExistsError) until it is "
+                                "deleted by hand", opened=src_txt[:80])
+                    continue
             # temp: a replace onto a final path must post-dominate
             cn = fl.cfg.containing(call, f.module.parents)
             reps = []
